@@ -813,13 +813,31 @@ C12.manifest = {
             "degrees with self-loops counted twice, their sums, m, the induced subgraph's edge weight) equals Newman's "
             "closed formula sum_c L_c/m - gamma*Kout_c*Kin_c/m^2 (undirected L_c/m - gamma*(K_c/2m)^2) with L_c, K_c, m "
             "defined directly on the edge multiset (parallel edges individually, a self-loop once in L_c and twice in "
-            "K_c), for directed and undirected graphs, every resolution, every family of duplicate-free sets.",
+            "K_c), for directed and undirected graphs, every resolution, every family of duplicate-free sets. "
+            "(3) Round 2, END TO END on the twelve-field state (Proofs/ModularityStateOk.v), for every state reachable by "
+            "any history of add_node(s)/add_edge(s) (hence every constructor result and derived graph), generic names: "
+            "C12_is_partition_reachable - is_partition returns Ok b and b = true IFF the family is a partition of "
+            "get_all_node_names (the coherence hypothesis of C12_is_partition_state is now a consequence of the invariant "
+            "WF: C12_WF_nodes_coherent); C12_modularity_state_abs - under WF the model's modularity (degree maps of "
+            "degree.rs over successors/predecessors/edges, get_subgraph + size per community) returns Ok(Some q) with q "
+            "== modularity_abs over the node names and get_all_edges (weight 1 per edge when unweighted); "
+            "C12_modularity_reachable - hence q == Newman's formula over get_all_edges for every partition (real weights "
+            "when weighted, total weight non-zero); C12_not_partition_iff_reachable - modularity returns Err k IFF k = "
+            "NotAPartition and the family is not a partition (so no other error kind, whatever the weights); "
+            "C12_modularity_degenerate_reachable - the remaining values of a partition: total weight 0 with non-negative "
+            "weights (edgeless graphs in particular) gives NaN (0 for the empty family on the empty graph), an edge "
+            "without weight under weighted = true gives NaN - so modularity() is determined on every reachable graph with "
+            "non-negative weights.",
     "note": "The theorems are about the list-level computations of Spec/PartitionDef.v (node list + weighted edge "
             "multiset). The twelve-field state model (Model/Partition.v: get_subgraph, size, the degree maps of "
             "Model/Query.v) is what the correspondence compares with the implementation (is_partition value, outcome "
             "kind, modularity within 1e-9 relative, NaN on edgeless graphs); that the state-level model equals the "
-            "list-level computation and Newman's formula is evaluated on every generated case (observation 210), not "
-            "proved (it needs the coherence invariant of C02/C09). Independent oracle: Newman's formula recomputed in "
+            "list-level computation and Newman's formula is PROVED since round 2 (item 3 of the text, from WF via "
+            "get_subgraph_content, get_{out,in}_edges_for_node_spec, get_edges_for_node_spec) and is in addition still "
+            "evaluated on every generated case (observation 210, kept as a tie between model and code). Not covered "
+            "by a theorem: total weight 0 reached with NEGATIVE weights (x/0 with x != 0 is +-inf in binary64; the "
+            "model maps it to a named Panic 'outside the modelled domain', never generated). "
+            "Independent oracle: Newman's formula recomputed in "
             "Python (fractions) from the implementation's get_all_edges, and the set-theoretic partition test. Weights in "
             "generated cases are NaN or small integers (exact in binary64); negative weights / infinite intermediate "
             "values are outside the modelled domain. Defect F8 repaired (fix: 2289a94). Axioms: none.",
